@@ -126,12 +126,17 @@ struct Case {
     kind: Kind,
     load: Load,
     subs: usize,
-    /// schedule prefix: 0 = producer, i>=1 = subscriber i.  After the prefix: subscribers run to the
-    /// end of their handler, then the producer runs to completion.
+    /// schedule prefix: 0 = producer, i>=1 = subscriber i, OTHER = the producer of another stream on the same
+    /// channel.  After the prefix: subscribers run to the end of their handler, then the other producer, then the producer.
     sched: Vec<usize>,
+    /// thread kind only: number of `POST /threads/{id}/branch` calls made by the OTHER actor; each creates a new
+    /// thread, i.e. publishes two frames of ANOTHER stream on the shared continuity channel
+    others: usize,
 }
+/// actor id of the foreign producer (subscribers are 1..=4)
+const OTHER: usize = 9;
 fn case_json(c: &Case) -> serde_json::Value {
-    json!({"kind": c.kind.name(), "load": c.load.to_json(), "subs": c.subs, "sched": c.sched})
+    json!({"kind": c.kind.name(), "load": c.load.to_json(), "subs": c.subs, "sched": c.sched, "others": c.others})
 }
 fn case_from_json(v: &serde_json::Value) -> Option<Case> {
     let kind = match v.get("kind")?.as_str()? {
@@ -145,6 +150,7 @@ fn case_from_json(v: &serde_json::Value) -> Option<Case> {
         load: Load::from_json(v.get("load")?)?,
         subs: v.get("subs")?.as_u64()? as usize,
         sched: v.get("sched")?.as_array()?.iter().filter_map(|x| x.as_u64().map(|y| y as usize)).collect(),
+        others: v.get("others").and_then(|x| x.as_u64()).unwrap_or(0) as usize,
     })
 }
 
@@ -155,12 +161,16 @@ enum Ev {
     Rec,
     Sub(usize),
     Snap(usize),
+    /// a frame of another stream was published on the same channel
+    Oth,
 }
 
 #[derive(Debug, Default)]
 struct Outcome {
     /// per subscriber (index 0 = subscriber 1): HTTP status and the seqs of the data frames of its body
     delivered: Vec<(u16, Vec<u64>)>,
+    /// per subscriber: number of body frames whose session_id is not the stream's id
+    foreign: Vec<u64>,
     /// seqs of the stream's frames in events.jsonl, file order
     truth: Vec<u64>,
     events: Vec<Ev>,
@@ -228,11 +238,42 @@ struct Ctl {
     pos: usize,
     prev: Option<usize>,
     guard: bool,
+    /// continuity seq mutex: who is between `cont.locked` and the return that follows `cont.advanced` / `cont.setnext`
+    holder: Option<usize>,
+    releasing: Option<usize>,
+    /// EventLog writer mutex: who is between `log.locked` and the return after `log.flushed`
+    log_holder: Option<usize>,
     events: Vec<Ev>,
     p_trace: Vec<&'static str>,
 }
 impl Ctl {
     fn arrived(&mut self, actor: usize, point: Option<&'static str>) {
+        if self.releasing == Some(actor) {
+            // `cont.setnext` also occurs inside create_continuity_locked while branch / handoff still hold the mutex
+            // for their second frame: the mutex is free only once the actor shows up outside the locked region
+            // (the locked region is full of log.* / cache.* / index points: only points known to lie outside release)
+            let outside = match point {
+                None => true,
+                Some(p) => p == "cont.before_lock" || ["sess.", "sse.", "task.", "snap.", "ws."].iter().any(|pre| p.starts_with(pre)),
+            };
+            let still_inside = !outside;
+            if !still_inside {
+                self.releasing = None;
+                self.holder = None;
+            }
+        }
+        if self.log_holder == Some(actor) && !matches!(point, Some(p) if p.starts_with("log.") && p != "log.before_lock") {
+            self.log_holder = None;
+        }
+        if point == Some("log.locked") {
+            self.log_holder = Some(actor);
+        }
+        match point {
+            Some("cont.locked") => self.holder = Some(actor),
+            Some("cont.advanced") | Some("cont.setnext") if self.holder == Some(actor) => self.releasing = Some(actor),
+            None if self.holder == Some(actor) => self.holder = None,
+            _ => {}
+        }
         let Some(p) = point else {
             if actor == 0 {
                 self.guard = false;
@@ -254,6 +295,10 @@ impl Ctl {
                     self.guard = false;
                 }
             }
+        } else if actor == OTHER {
+            if p == "cont.bcast" {
+                self.events.push(Ev::Oth);
+            }
         } else if p == self.kind.sub_point() {
             self.events.push(Ev::Sub(actor));
         } else if p == self.kind.snap_point() {
@@ -270,7 +315,7 @@ impl Ctl {
             let want = if self.pos < self.prefix.len() {
                 self.prefix[self.pos]
             } else {
-                // default: subscribers first, then the producer
+                // default: subscribers first, then the other producer, then the producer
                 en.iter().map(|(a, _)| *a).filter(|a| *a != 0).min().unwrap_or(0)
             };
             match parked(want) {
@@ -289,6 +334,20 @@ impl Ctl {
                     if want != 0 && p == self.kind.sub_point() && self.guard && parked(0).is_some() {
                         break 0; // snapshot would block on the buffer mutex: let the producer leave the critical section
                     }
+                    if p == "log.before_lock" {
+                        if let Some(h) = self.log_holder {
+                            if h != want && parked(h).is_some() {
+                                break h; // the EventLog writer mutex is taken: let its holder finish the append
+                            }
+                        }
+                    }
+                    if p == "cont.before_lock" {
+                        if let Some(h) = self.holder {
+                            if h != want && parked(h).is_some() {
+                                break h; // the continuity seq mutex is taken: let its holder leave the critical section
+                            }
+                        }
+                    }
                     if self.pos < self.prefix.len() {
                         self.pos += 1;
                     }
@@ -301,14 +360,15 @@ impl Ctl {
     }
 }
 
-fn read_body(rt: &tokio::runtime::Runtime, resp: axum::response::Response, kind: Kind, last_seq: Option<u64>) -> (u16, Vec<u64>) {
+fn read_body(rt: &tokio::runtime::Runtime, resp: axum::response::Response, kind: Kind, last_seq: Option<u64>, stream_id: &str) -> (u16, Vec<u64>, u64) {
     use http_body_util::BodyExt;
     let status = resp.status().as_u16();
     if status != 200 {
-        return (status, vec![]);
+        return (status, vec![], 0);
     }
     let mut body = resp.into_body();
     let mut seqs = vec![];
+    let mut foreign = 0u64;
     rt.block_on(async {
         let mut buf = String::new();
         let mut terminal = false;
@@ -327,6 +387,9 @@ fn read_body(rt: &tokio::runtime::Runtime, resp: axum::response::Response, kind:
                         if let Ok(v) = serde_json::from_str::<serde_json::Value>(d.trim()) {
                             let sq = v.get("seq").and_then(|x| x.as_u64()).unwrap_or(u64::MAX);
                             seqs.push(sq);
+                            if v.get("session_id").and_then(|x| x.as_str()) != Some(stream_id) {
+                                foreign += 1;
+                            }
                             if Some(sq) == last_seq {
                                 terminal = true; // the producer is finished: nothing can follow the stream's last frame
                             }
@@ -343,7 +406,7 @@ fn read_body(rt: &tokio::runtime::Runtime, resp: axum::response::Response, kind:
             }
         }
     });
-    (status, seqs)
+    (status, seqs, foreign)
 }
 
 /// one real router over one store, reused for a bounded number of cases (a new session / task per
@@ -515,6 +578,22 @@ fn run_case(env: &mut Env, c: &Case) -> Outcome {
             producer_done.store(finished, std::sync::atomic::Ordering::SeqCst);
         });
     }
+    // ---- the producer of OTHER streams on the same channel (thread kind: every thread shares the continuity channel)
+    if c.kind == Kind::Thread && c.others > 0 {
+        let app = app.clone();
+        let sid = stream_id.clone();
+        let n = c.others;
+        sched.spawn(OTHER, move || {
+            let rt = new_rt();
+            rt.block_on(async move {
+                let id = sid.lock().unwrap().clone().unwrap();
+                for _ in 0..n {
+                    let (st, _) = call_json(&app, req("POST", &format!("/threads/{id}/branch"), Some(json!({"title": "other"})))).await;
+                    assert!(st == 200 || st == 201, "branch status {st}");
+                }
+            });
+        });
+    }
     // ---- subscriber actors
     for i in 1..=c.subs {
         let app = app.clone();
@@ -535,7 +614,7 @@ fn run_case(env: &mut Env, c: &Case) -> Outcome {
     }
     drop(tx);
 
-    let ctl = std::cell::RefCell::new(Ctl { kind: c.kind, prefix: c.sched.clone(), pos: 0, prev: None, guard: false, events: vec![], p_trace: vec![] });
+    let ctl = std::cell::RefCell::new(Ctl { kind: c.kind, prefix: c.sched.clone(), pos: 0, prev: None, guard: false, holder: None, releasing: None, log_holder: None, events: vec![], p_trace: vec![] });
     let sid_probe = stream_id.clone();
     let enabled = move |actor: usize, point: &'static str| -> bool {
         // a subscriber cannot be started before the stream's id exists (task ids are minted by POST /tasks)
@@ -551,6 +630,9 @@ fn run_case(env: &mut Env, c: &Case) -> Outcome {
         out.events = ctl.events.clone();
         out.producer_trace = ctl.p_trace.clone();
     }
+    if std::env::var("C06_TRACE").is_ok() {
+        eprintln!("steps: {:?}", trace.steps);
+    }
     out.in_flight = trace.in_flight_timeouts;
     out.deadlock = trace.deadlock;
     out.panicked = trace.panicked.clone();
@@ -559,13 +641,15 @@ fn run_case(env: &mut Env, c: &Case) -> Outcome {
     let id = stream_id.lock().unwrap().clone().unwrap_or_default();
     out.truth = stream_frames(&data, &id, c.kind == Kind::Thread).into_iter().map(|(s, _)| s).collect();
     let last = out.truth.last().cloned();
-    let mut got: BTreeMap<usize, (u16, Vec<u64>)> = BTreeMap::new();
+    let mut got: BTreeMap<usize, (u16, Vec<u64>, u64)> = BTreeMap::new();
     while let Ok((i, rt, resp)) = rx.recv_timeout(Duration::from_secs(5)) {
-        got.insert(i, read_body(&rt, resp, c.kind, last));
+        got.insert(i, read_body(&rt, resp, c.kind, last, &id));
         drop(rt);
     }
     for i in 1..=c.subs {
-        out.delivered.push(got.remove(&i).unwrap_or((0, vec![])));
+        let (st, seqs, fo) = got.remove(&i).unwrap_or((0, vec![], 0));
+        out.delivered.push((st, seqs));
+        out.foreign.push(fo);
     }
     out
 }
@@ -579,6 +663,11 @@ fn oracle(c: &Case, o: &Outcome) -> Option<(String, String)> {
     let want: Vec<u64> = (0..n).collect();
     if o.truth != want {
         return Some((format!("{} stream in events.jsonl is not 0..n-1: {:?}", c.kind.name(), o.truth), "truth_not_contiguous".into()));
+    }
+    for (i, fo) in o.foreign.iter().enumerate() {
+        if *fo > 0 {
+            return Some((format!("{} stream, subscriber {}: {} frame(s) of ANOTHER stream in the body (seqs {:?})", c.kind.name(), i + 1, fo, o.delivered[i].1), "foreign_frame_delivered".into()));
+        }
     }
     for (i, (st, seqs)) in o.delivered.iter().enumerate() {
         if *st != 200 {
@@ -627,6 +716,7 @@ fn coq_case(c: &Case, o: &Outcome) -> String {
     let evs = coq_list(&model_events(o), |e| match e {
         Ev::Pub | Ev::Rec => "AP".to_string(),
         Ev::Sub(i) | Ev::Snap(i) => format!("(AS {})", coq_nat(*i as u64 - 1)),
+        Ev::Oth => "AO".to_string(),
     });
     let mut expect = vec![];
     for (st, seqs) in &o.delivered {
@@ -686,7 +776,7 @@ fn corpus(repo_root: &Path) -> Vec<Case> {
 
 /// the producer's point trace for a load (dry run without subscribers)
 fn producer_points(kind: Kind, load: &Load) -> Vec<&'static str> {
-    let c = Case { kind, load: load.clone(), subs: 0, sched: vec![] };
+    let c = Case { kind, load: load.clone(), subs: 0, sched: vec![], others: 0 };
     let mut env = Env::new(&c);
     run_case(&mut env, &c).producer_trace
 }
@@ -756,7 +846,7 @@ fn main() {
                 s.push(1);
                 s.extend(vec![0; d]);
                 s.push(1);
-                cases.push(Case { kind: *kind, load: load.clone(), subs: 1, sched: s });
+                cases.push(Case { kind: *kind, load: load.clone(), subs: 1, sched: s, others: 0 });
             }
         }
         // several concurrent subscribers, random interleavings
@@ -768,7 +858,41 @@ fn main() {
             for _ in 0..len {
                 s.push(if r.chance(3, 5) { 0 } else { r.range(1, subs as u64) as usize });
             }
-            cases.push(Case { kind: *kind, load: load.clone(), subs, sched: s });
+            cases.push(Case { kind: *kind, load: load.clone(), subs, sched: s, others: 0 });
+        }
+        // thread kind: another thread's producer publishes on the shared continuity channel (the handler must drop
+        // those frames; they sit in the receiver between the frames of this thread)
+        if *kind == Kind::Thread {
+            let step = if thorough { 1 } else { 3 };
+            for a_ in pos.iter().step_by(step) {
+                // the foreign frames arrive between subscribe and snapshot
+                let mut s = vec![0; *a_];
+                s.push(1);
+                s.extend(vec![OTHER; 80]);
+                s.push(1);
+                cases.push(Case { kind: *kind, load: load.clone(), subs: 1, sched: s, others: 1 });
+                // one foreign thread before the attach, one inside the window, then the producer moves on before the snapshot
+                let mut s = vec![OTHER; 30];
+                s.extend(vec![0; *a_]);
+                s.push(1);
+                s.extend(vec![OTHER; 80]);
+                s.extend(vec![0; 5]);
+                s.push(1);
+                cases.push(Case { kind: *kind, load: load.clone(), subs: 1, sched: s, others: 2 });
+            }
+            for _ in 0..n_multi {
+                let subs = r.range(1, 3) as usize;
+                let len = r.range(4, (t as u64 + 40).max(5)) as usize;
+                let mut s = vec![];
+                for _ in 0..len {
+                    s.push(match r.range(0, 9) {
+                        0..=3 => 0,
+                        4..=6 => OTHER,
+                        _ => r.range(1, subs as u64) as usize,
+                    });
+                }
+                cases.push(Case { kind: *kind, load: load.clone(), subs, sched: s, others: r.range(1, 2) as usize });
+            }
         }
     }
 
@@ -794,6 +918,9 @@ fn main() {
         res.bump(&format!("kind={}", c.kind.name()));
         res.bump(&format!("load={}", c.load.label()));
         res.bump(&format!("subs={}", c.subs));
+        if c.others > 0 {
+            res.bump(&format!("foreign_producer_calls={}", c.others));
+        }
         let o = match got {
             Err(_) => {
                 Sched::uninstall();
